@@ -50,7 +50,7 @@ pub struct Workload {
 
 fn git(dir: &Path) -> Command {
     let mut c = Command::new("git");
-    c.arg("-C").arg(dir).env("GIT_CONFIG_NOSYSTEM", "1").env("GIT_CONFIG_GLOBAL", "/dev/null").env_remove("GIT_DIR").env("GIT_AUTHOR_NAME", "a").env("GIT_AUTHOR_EMAIL", "a@e").env("GIT_COMMITTER_NAME", "c").env("GIT_COMMITTER_EMAIL", "c@e");
+    c.arg("-C").arg(dir).env("LC_ALL", "C").env("GIT_CONFIG_NOSYSTEM", "1").env("GIT_CONFIG_GLOBAL", "/dev/null").env_remove("GIT_DIR").env("GIT_AUTHOR_NAME", "a").env("GIT_AUTHOR_EMAIL", "a@e").env("GIT_COMMITTER_NAME", "c").env("GIT_COMMITTER_EMAIL", "c@e");
     c
 }
 fn run(c: &mut Command) -> Result<String, String> {
